@@ -148,7 +148,7 @@ seq_t dtw_distance(seq_t *s1, idx_t l1,
         dtw[j] = INFINITY;
     }
     // Deal with psi-relaxation in first row
-    for (i=0; i<settings->psi_2b + 1; i++) {
+    for (i=0; i<settings->psi_2b + 1 && i<length; i++) {
         dtw[i] = 0;
     }
     idx_t skip = 0;
@@ -386,7 +386,7 @@ seq_t dtw_distance_ndim(seq_t *s1, idx_t l1,
         dtw[j] = INFINITY;
     }
     // Deal with psi-relaxation in first row
-    for (i=0; i<settings->psi_2b + 1; i++) {
+    for (i=0; i<settings->psi_2b + 1 && i<length; i++) {
         dtw[i] = 0;
     }
     idx_t skip = 0;
@@ -622,7 +622,7 @@ seq_t dtw_distance_euclidean(seq_t *s1, idx_t l1,
         dtw[j] = INFINITY;
     }
     // Deal with psi-relaxation in first row
-    for (i=0; i<settings->psi_2b + 1; i++) {
+    for (i=0; i<settings->psi_2b + 1 && i<length; i++) {
         dtw[i] = 0;
     }
     idx_t skip = 0;
@@ -856,7 +856,7 @@ seq_t dtw_distance_ndim_euclidean(seq_t *s1, idx_t l1,
         dtw[j] = INFINITY;
     }
     // Deal with psi-relaxation in first row
-    for (i=0; i<settings->psi_2b + 1; i++) {
+    for (i=0; i<settings->psi_2b + 1 && i<length; i++) {
         dtw[i] = 0;
     }
     idx_t skip = 0;
